@@ -306,7 +306,7 @@ pub fn main(ctx: &Ctx) -> i32 {
         };
         return replay(ctx, &body);
     }
-    let runs: u64 = ctx.tier.pick(160, 4000);
+    let runs: u64 = ctx.tier.pick(3000, 100000);
     let res = crate::core::pool::run_jobs(runs, |idx| {
         let mut out = RunOut::default();
         if idx % 2 == 0 {
